@@ -1,0 +1,27 @@
+//go:build verif
+
+// Contracts for the deductive verifier in /verif (govc). Comments only.
+
+package bind
+
+// ---- redaction of flag values (C19): the displayed form carries no secret ----
+// secret(s): s contains secret-derived content (a password; inline key
+// material). User names are public, formatting and concatenation introduce
+// nothing (specs/strings.spec, specs/net.spec).
+
+//@ axiom !secret(":xxxxx") && !secret("data:xxxxx") && !secret("data:")
+
+// RedactUserinfo: user name, and a fixed placeholder instead of the password.
+//@ func RedactUserinfo
+//@ property C19
+//@ pure
+//@ ensures !secret(result)
+//@ ensures ui == nil ==> result == ""
+
+// RedactBase64: an inline data: URI is replaced as a whole; a file path is shown.
+//@ pred isDataURI(s string) = len(s) >= 5 && s[0] == 100 && s[1] == 97 && s[2] == 116 && s[3] == 97 && s[4] == 58
+//@ func RedactBase64
+//@ property C19
+//@ pure
+//@ ensures isDataURI(s) ==> result == "data:xxxxx" && !secret(result)
+//@ ensures !isDataURI(s) ==> result == s
